@@ -49,6 +49,21 @@ BackWord(tab, t, c) == MaxOf({p \in WordStarts(tab, t) : p < c} \cup {0})
 ForwWord(tab, t, c) == MinOf({p \in WordEnds(tab, t) : p > c} \cup {Len(t)})
 BackBlankWord(tab, t, c) == MaxOf({p \in BlankStarts(tab, t) : p < c} \cup {0})
 
+(* A deletion can leave two graphemes side by side that form ONE cluster     *)
+(* (two regional indicators, Hangul jamo, an emoji sequence around a zero   *)
+(* width joiner).  fact = <<>> or <<l, r, j>>, a logged segmentation fact:  *)
+(* "l directly followed by r is the single cluster j".  The text then holds *)
+(* j in their place.  The cursor was between l and r, a place that is no    *)
+(* longer a position of a grapheme editor: it is on one of the two sides of *)
+(* j - a grapheme boundary of the text, no further from the place of the    *)
+(* deletion than the joined cluster reaches.  (The statement does not say   *)
+(* which side.)                                                             *)
+Seam(s, fact) ==
+  IF fact # <<>> /\ s.cur >= 1 /\ s.cur < Len(s.text) /\ s.text[s.cur] = fact[1] /\ s.text[s.cur + 1] = fact[2]
+  THEN LET t2 == SubSeq(s.text, 1, s.cur - 1) \o <<fact[3]>> \o SubSeq(s.text, s.cur + 2, Len(s.text))
+       IN {Ed(t2, s.cur - 1), Ed(t2, s.cur)}
+  ELSE {s}
+
 (* Next(tab, cfg, ed, op) = the set of states the ideal editor may be in     *)
 (* after op.  op.k names the command, op.gs the inserted/pasted/assigned    *)
 (* graphemes, op.i a target index.  cfg.enter is "clear" when submitting    *)
@@ -72,13 +87,19 @@ Next(tab, cfg, ed, op) ==
     [] op.k = "end"     -> {Ed(t, n)}
     [] op.k = "wordleft"  -> {Ed(t, BackWord(tab, t, c))}
     [] op.k = "wordright" -> {Ed(t, ForwWord(tab, t, c))}
-    [] op.k = "bs"      -> {IF c > 0 THEN Ed(Cut(t, c - 1, c), c - 1) ELSE ed}
-    [] op.k = "del"     -> {IF c < n THEN Ed(Cut(t, c, c + 1), c) ELSE ed}
+    \* deletions inside the text: op.gs is <<>> or the segmentation fact for the two graphemes the
+    \* deletion brings together (see Seam)
+    [] op.k = "bs"      -> Seam(IF c > 0 THEN Ed(Cut(t, c - 1, c), c - 1) ELSE ed, op.gs)
+    [] op.k = "del"     -> Seam(IF c < n THEN Ed(Cut(t, c, c + 1), c) ELSE ed, op.gs)
     [] op.k = "killeol" -> {Ed(SubSeq(t, 1, c), c)}
     [] op.k = "killbol" -> {Ed(SubSeq(t, c + 1, n), 0)}
-    [] op.k = "delword" -> {Ed(Cut(t, p, c), p) : p \in {BackWord(tab, t, c), BackBlankWord(tab, t, c)}}
+    [] op.k = "delword" -> UNION {Seam(Ed(Cut(t, p, c), p), op.gs) : p \in {BackWord(tab, t, c), BackBlankWord(tab, t, c)}}
     [] op.k = "enter"   -> {IF cfg.enter = "clear" THEN Empty ELSE ed}
     [] op.k = "set"     -> {Ed(op.gs, Len(op.gs))}
+    \* the text is replaced from outside, the editor is not asked to move its cursor ("setval": the
+    \* application assigns the widget's exported value, which is also how a starting content is given):
+    \* the cursor keeps its index, and it is always within the text
+    [] op.k = "setval"  -> {Ed(op.gs, IF c < Len(op.gs) THEN c ELSE Len(op.gs))}
     [] op.k = "reset"   -> {Empty}
     [] op.k = "goto"    -> {Ed(t, IF op.i < n THEN op.i ELSE n)}
     [] op.k \in {"noop", "resize"} -> {ed}
